@@ -171,6 +171,25 @@ pub fn gen(rng: &mut StdRng, depth: u32, budget: usize) -> Val {
     }
 }
 
+/// A value whose serialisation writes a few bytes and then fails.
+struct HalfFail(u64);
+
+impl Serialize for HalfFail {
+    fn serialize<S: serde::Serializer>(&self, serializer: S) -> Result<S::Ok, S::Error> {
+        use serde::ser::{Error, SerializeTuple};
+        let mut t = serializer.serialize_tuple(3)?;
+        t.serialize_element(&self.0)?;
+        t.serialize_element(&0xdead_beefu32)?;
+        Err(S::Error::custom("scripted failure"))
+    }
+}
+
+impl<'de> Deserialize<'de> for HalfFail {
+    fn deserialize<D: serde::Deserializer<'de>>(_d: D) -> Result<Self, D::Error> {
+        Err(serde::de::Error::custom("send-only"))
+    }
+}
+
 pub fn run() {
     verif::init();
     for job in read_json_lines() {
@@ -213,7 +232,22 @@ pub fn run() {
             }
             bad
         });
+        // sends that fail on the same thread must leave no trace in the following ones:
+        // a channel whose receiver is gone, and a value whose serialisation fails half-way
+        let (dead_tx, dead_rx) = ipc::channel::<Val>().unwrap();
+        drop(dead_rx);
+        let (fail_tx, _fail_rx) = ipc::channel::<HalfFail>().unwrap();
         for (i, v) in vals.into_iter().enumerate() {
+            if i % 9 == 4 {
+                if dead_tx.send(v.clone()).is_ok() {
+                    failures.push(json!({"kind": "send-to-dropped-receiver-succeeded", "index": i}));
+                }
+            }
+            if i % 13 == 6 {
+                if fail_tx.send(HalfFail(i as u64)).is_ok() {
+                    failures.push(json!({"kind": "failing-serialisation-accepted", "index": i}));
+                }
+            }
             if let Err(e) = tx.send(v) {
                 failures.push(json!({"kind": "value-send-error", "index": i, "error": format!("{:?}", e)}));
                 break;
